@@ -290,6 +290,12 @@ def make_forms(cell, thorough):
         ("a:vec jump", ufl.inner(ufl.jump(uv), ufl.jump(vv)) * dS),
         ("M:vec f.n", ufl.inner(fv("+"), n("+")) * ufl.inner(fv("-"), n("-")) * dS),
     ]
+    # named facet rules (exact for the degree-4 integrands): their points are stored in another order than the default rule's (GLL: end points first)
+    if cell in ("triangle", "quadrilateral", "hexahedron"):
+        out.append(("M:f+g- GLL", f("+") * g("-") * dS(metadata={"quadrature_rule": "GLL", "quadrature_degree": 4})))
+        out.append(("a:u+v- GLL", u1("+") * v1("-") * dS(metadata={"quadrature_rule": "GLL", "quadrature_degree": 3})))
+    if cell != "interval":
+        out.append(("M:jump(f)g- GJ", ufl.jump(f) * g("-") * dS(metadata={"quadrature_rule": "Gauss-Jacobi", "quadrature_degree": 4})))
     if thorough:
         out += [
             ("a:jump(grad u)jump(grad v)", ufl.inner(ufl.jump(ufl.grad(u2)), ufl.jump(ufl.grad(v2))) * dS),
@@ -493,7 +499,7 @@ def main():
         _, fl = make_forms(cell, chk.thorough)
         nforms = len(fl)
         if cell == "hexahedron" and not chk.thorough:
-            use = [0, 1, 3, 7, 10]  # 2304 numbering pairs x 8 code pairs each: a subset of the forms in the quick tier
+            use = [0, 1, 3, 7, 10, 12]  # 2304 numbering pairs x 8 code pairs each: a subset of the forms in the quick tier
         else:
             use = range(nforms)
         for i in use:
